@@ -48,6 +48,18 @@ CHECKS = {
  "C20": dict(text="Dataset built by real Add/Merge of n<=3 (quick) arbitrary non-NaN float64 values: for every q (all bit patterns) Lower/UpperQuantile return exactly the order statistic of rank floor/ceil of fl(q*(n-1)) (oracle written without sorting), NaN for invalid q or empty data, exact Min/Max/Count; the same after additions or a merge following a query (stale sort flag); Sum exact on dyadic data.",
              note="sort.Float64s is modelled as an insertion sort forking on comparisons. The rank is read in float64 arithmetic. The NaN-quantile panic found here was repaired.",
              ref="§6 C20"),
+ "C03": dict(text="PARTIAL. Decided on the real arithmetic of the linearly interpolated mapping, one binade at a time (all 2^52 significands; quick: alpha=0.01 in binades -1,0,1; thorough: more accuracies, far binades and a non-default offset): relative accuracy within alpha+1e-12, the value inside its bin up to 4 ulps, index in int32, the next float never maps to a smaller index (cvc5 decides each in minutes). For all three kinds: the manual floor of Index brackets the log-like quantity for every value of that quantity, and — by concrete evaluation of the real constructors on a grid of accuracies — the reported accuracy equals the configured one within 8 ulps of 1 and both ends of the indexable range map to int32 indexes within the accuracy.",
+             note="NOT decided: accuracy, containment and monotonicity of the logarithmic mapping (depends on math.Log/Exp, uninterpreted here) and of the cubic mapping (cubic polynomial and Cardano inverse: solver timeouts); binades and accuracies not listed. Monotonicity of the floor skeleton is thorough-tier (attempted, 10 min cap).",
+             ref="§6 C03, §12.6", tech="bounded symbolic execution of the real Go SSA (own encoder) + SMT: cvc5 1.0 --fp-exp decides the float kernels (z3 as fallback); counterexamples replayed natively"),
+ "C09": dict(text="PARTIAL (proto.Marshal/Unmarshal run on reflection and are outside). Decided on real code: (a) ToProto -> FromProtoWithStoreProvider for source/target store kinds incl. collapsing, the three mapping kinds and EVERY positive finite float64 weight: mapping Equals both ways, zero weight and every bin bit-for-bit, source untouched; (b) hand-built messages giving bins both sparsely and contiguously add up in MergeWithProto (generic and paginated); (c) the bytes written by the streaming EncodeProto (generated builders, protowire and bytes.Buffer executed from their real code) are parsed by a reference protobuf wire parser (packed and unpacked doubles) into exactly the fields of the in-memory message.",
+             note="The reference wire parser (harness/ddsketch/zz_c09.go) stands in for Unmarshal and is trusted. Bounds: 0-2 positive / 0-1 negative bins; symbolic base index (enumerated when a paginated store is involved).",
+             ref="§6 C09"),
+ "C17": dict(text="PARTIAL: the structural clauses only. Identity (equal mapping, scale 1) returns an exact, independent copy from arbitrary valid states and ignores the stores passed; in general the result carries the requested mapping and the given stores, keeps the zero weight bit-for-bit, leaves the source untouched and sends a source bin's weight only to the (at most three) target bins the loop visits, for mappings known only through strictly increasing bin bounds; exact statistics are rescaled (C10 harness).",
+             note="NOT decided: conservation of total weight up to rounding, absence of negative weights, the combined accuracy bound — they need chains of symbolic float division/multiplication (solver unknown). The ~-1e-14 weights mentioned in the property text are therefore neither confirmed nor refuted by this check.",
+             ref="§6 C17, §12.6"),
+ "C19": dict(text="For every finite base > 1 and offset (all bit patterns) and the three kinds: binary Encode -> Decode and ToProto -> FromProto give the same kind with bit-identical parameters AND derived fields, the same Index/Value/LowerBound/accuracy/range on every probe (congruence over deterministic uninterpreted Log/Exp/Pow), Equals both ways; the accuracy constructor equals the base/offset constructor; Equals is reflexive, never holds across kinds, never for bases or offsets that differ clearly (incl. zero vs non-zero offset); unknown flags, truncated blocks, nil and unsupported protobuf mappings are errors; on a grid, accuracies 0.1% apart give unequal mappings.",
+             note="Symmetry of Equals for two fully symbolic mappings and the accuracy-separation for all accuracies are thorough-tier attempts (float products). The streaming protobuf form of a mapping is covered in C09(c).",
+             ref="§6 C19"),
  "C04": dict(text="One inductive step of every store operation from an arbitrary state satisfying the representation invariant (dense: any window in a symbolic array with stale cells beyond len; sparse: M distinct symbolic indexes; buffered-paginated: enumerated page-table layouts with symbolic buffer, page base, cells) is proven by the solver to preserve the invariant and to change the abstract index->weight map exactly as the operation's specification says, at a skolem probe index; every observer (TotalCount, IsEmpty, Min/MaxIndex, KeyAtRank at symbolic rank incl. exact cumulative boundaries and negatives, ForEach incl. early stop, Bins) is proven to return the value the specification assigns to that map. By induction this covers operation histories of any length whose states fit the stated size bounds.",
              note="Weights are dyadic fixed point (multiples of 2^-4, <= 2^20 units) and indexes are mathematical integers with int32 range: exactness/no-wrap is enforced by bound tracking (|m| < 2^53). Trusted: the invariants are inductive only as far as the step obligations show; go/ssa; this engine; z3/cvc5. Bounds: dense window arrays of 0/1/4 symbolic cells plus an enumerated 66-cell layout, new index within 12 of the window; sparse M<=3 with all iteration orders; paginated layouts as listed in the evidence. Encode/Decode and protobuf steps are covered under C06/C09.",
              ref="§6 C04"),
